@@ -238,7 +238,10 @@ impl Check for HdlcCheck {
             let outside_both = (wire < min_size && len < min_size) || (len > max_size && wire > max_size);
             let mut class = if flips > 0 {
                 if checksum {
-                    if fix && flips == 1 { Class::May } else { Class::MustNot }
+                    // "Rejected, or repaired to the original when single-bit
+                    // fixing is enabled": with fixing on, the original coming
+                    // out is acceptable; anything else for this frame is not.
+                    if fix { Class::May } else { Class::MustNot }
                 } else {
                     // Without checksum a flipped frame comes out corrupted or not at all.
                     Class::MustNot
@@ -396,6 +399,42 @@ impl Check for HdlcCheck {
         for (oi, o) in outs.iter().enumerate() {
             if checksum && cand_ok(o) == Some(false) && !tx.iter().any(|t| t.payload == **o && t.class != Class::MustNot) {
                 return ctx.tolerate(Violation::new("C13:invalid-fcs-delivered", format!("output {oi} ({} bytes) is a frame whose FCS does not verify", o.len())));
+            }
+        }
+        // Wrong repair: with fixing on, an output that was never transmitted and
+        // is within two bits of a frame whose FCS fails is a frame "repaired"
+        // into something else.
+        if fix {
+            for (oi, o) in outs.iter().enumerate() {
+                if is_tx_payload(o) || cand_ok(o) == Some(true) {
+                    continue;
+                }
+                for c in &candidates {
+                    if c.crc_ok || c.bytes.len() < 2 || c.bytes.len() - 2 != o.len() {
+                        continue;
+                    }
+                    let d: u32 = c.bytes[..o.len()].iter().zip(o.iter()).map(|(a, b)| (a ^ b).count_ones()).sum();
+                    // A fragment: the failing frame is not one of the transmitted
+                    // frames with bit errors, but a piece of one that a flipped bit
+                    // cut off by creating a flag. Any such piece has about a
+                    // (bits / 65536) chance of being one bit away from a valid
+                    // FCS: inherent to single-bit fixing over CRC-16, kept apart
+                    // from a mis-repair of a whole frame.
+                    let fragment = !tx.iter().any(|t| t.payload.len() + 2 == c.bytes.len());
+                    if (1..=2).contains(&d) && fragment {
+                        ctx.tolerate(Violation::new(
+                            "C13:fragment-miscorrected",
+                            format!("output {oi} ({} bytes) was never transmitted: a flipped bit created a flag inside a frame and single-bit fixing turned the cut-off piece (FCS failing) into a frame with a matching FCS", o.len()),
+                        ))?;
+                        continue;
+                    }
+                    if d >= 1 && d <= 2 {
+                        return ctx.tolerate(Violation::new(
+                            "C13:wrong-repair",
+                            format!("output {oi} ({} bytes) was never transmitted; it differs in {d} bit(s) from a received frame whose FCS fails: bit fixing produced a different frame instead of the original or nothing", o.len()),
+                        ));
+                    }
+                }
             }
         }
         match explain(complete) {
